@@ -41,7 +41,7 @@ def plan(tier, seed):
         for i in range(16):
             shards.append({"kind": "window", "tier": tier, "seed": seed, "shard": i, "n": 4000, "subprocess": True})
         for i in range(16):
-            shards.append({"kind": "wire", "tier": tier, "seed": seed, "shard": i, "n": 40, "subprocess": True})
+            shards.append({"kind": "wire", "tier": tier, "seed": seed, "shard": i, "n": 80, "subprocess": True})
     return shards
 
 
